@@ -29,10 +29,16 @@ pub fn cells(tier: Tier) -> Vec<CellPlan> {
             Op::Unmark(0),
             Op::Mark(0),
         ];
-        c.env = Env { hold_acks: false, hold_updates: 1, mutations: MutMenu::Hold, leftover_choice: false };
+        c.env = Env { hold_acks: false, hold_updates: 1, mutations: MutMenu::Hold, leftover_choice: false, lossy: false };
         c.oracles = Oracles { c08: true, c01: true, c08_twin: true, ..Default::default() };
         c.rounds = 3;
         v.push(plan(c, if q { 0 } else { 1 }, 2.0));
+    }
+    for vis in [Vis::Blacklist, Vis::Whitelist] {
+        let mut c = cells::vis_empty("C08", vis);
+        c.oracles = Oracles { c08: true, c01: true, c03: true, ..Default::default() };
+        c.rounds = if q { 3 } else { 4 };
+        v.push(plan(c, 1, 1.0));
     }
     v
 }
